@@ -73,15 +73,30 @@ type IfaceContract struct {
 	Name    string
 	States  []CVar
 	Methods map[string]*ProcContract
+	Ghosts  map[string]*GhostMethod // abstract functions of the instance: ghostmethod elems(s F_) : List[A]
 	Props   []string
 }
 
+type GhostMethod struct {
+	Name   string
+	Params []CVar
+	Ret    string
+}
+
 type ImplContract struct {
-	Type   string
-	Iface  string
-	Models map[string]Clause
-	ObjInv []Clause
-	Opts   map[string]string
+	Type    string
+	Iface   string
+	Models  map[string]Clause
+	MParams map[string][]string // parameter names of method models
+	ObjInv  []Clause
+	Opts    map[string]string
+}
+
+type InstanceCheck struct {
+	Name  string // package-level const/var
+	Type  string // required named type (origin name)
+	Props []string
+	Line  int
 }
 
 type LemmaContract struct {
@@ -100,6 +115,7 @@ type ContractFile struct {
 	Ifaces map[string]*IfaceContract
 	Impls  map[string]*ImplContract
 	Lemmas []*LemmaContract
+	Insts  []*InstanceCheck
 	Decls  []string // raw smt declarations (spec functions local to the package)
 }
 
@@ -177,7 +193,7 @@ func ParseContractFile(path string) (*ContractFile, error) {
 			cf.Funcs[key] = top
 			cf.Order = append(cf.Order, key)
 		case "interface":
-			iface = &IfaceContract{Name: rest, Methods: map[string]*ProcContract{}, Props: fileProps}
+			iface = &IfaceContract{Name: rest, Methods: map[string]*ProcContract{}, Ghosts: map[string]*GhostMethod{}, Props: fileProps}
 			cf.Ifaces[rest] = iface
 			top, cur, impl = nil, nil, nil
 		case "method":
@@ -200,7 +216,7 @@ func ParseContractFile(path string) (*ContractFile, error) {
 			if len(f) != 3 || f[1] != "implements" {
 				return nil, fmt.Errorf("%s:%d: expected `type T implements I`", path, n)
 			}
-			impl = &ImplContract{Type: f[0], Iface: f[2], Models: map[string]Clause{}, Opts: map[string]string{}}
+			impl = &ImplContract{Type: f[0], Iface: f[2], Models: map[string]Clause{}, MParams: map[string][]string{}, Opts: map[string]string{}}
 			cf.Impls[f[0]+"/"+f[2]] = impl
 			top, cur, iface = nil, nil, nil
 		case "model":
@@ -211,7 +227,19 @@ func ParseContractFile(path string) (*ContractFile, error) {
 			if !ok {
 				return nil, fmt.Errorf("%s:%d: model needs `name(self) = expr`", path, n)
 			}
-			nm := strings.TrimSpace(strings.TrimSuffix(strings.TrimSpace(lhs), "(self)"))
+			lhs = strings.TrimSpace(lhs)
+			nm := lhs
+			if i := strings.Index(lhs, "("); i >= 0 {
+				nm = strings.TrimSpace(lhs[:i])
+				ps := strings.Split(strings.TrimSuffix(lhs[i+1:], ")"), ",")
+				for _, p := range ps[1:] {
+					impl.MParams[nm] = append(impl.MParams[nm], strings.TrimSpace(p))
+				}
+			}
+			// the right-hand side may itself contain "=" (==, <=): re-cut at the first " = "
+			if j := strings.Index(rest, " = "); j >= 0 {
+				rhs = rest[j+3:]
+			}
 			c, err := clause(strings.TrimSpace(rhs), n)
 			if err != nil {
 				return nil, err
@@ -236,6 +264,33 @@ func ParseContractFile(path string) (*ContractFile, error) {
 				return nil, err
 			}
 			cf.Lemmas = append(cf.Lemmas, &LemmaContract{Name: strings.TrimSpace(nm), Expr: c, Props: fileProps})
+		case "ghostmethod":
+			if iface == nil {
+				return nil, fmt.Errorf("%s:%d: ghostmethod outside interface", path, n)
+			}
+			// ghostmethod elems(s F_) : List[A]
+			head, ret, ok := strings.Cut(rest, ":")
+			i := strings.Index(head, "(")
+			if !ok || i < 0 {
+				return nil, fmt.Errorf("%s:%d: ghostmethod name(params) : Sort", path, n)
+			}
+			gm := &GhostMethod{Name: strings.TrimSpace(head[:i]), Ret: strings.TrimSpace(ret)}
+			inner := strings.TrimSuffix(strings.TrimSpace(head[i+1:]), ")")
+			for _, p := range strings.Split(inner, ",") {
+				f := strings.Fields(p)
+				if len(f) == 2 {
+					gm.Params = append(gm.Params, CVar{f[0], f[1]})
+				}
+			}
+			iface.Ghosts[gm.Name] = gm
+		case "instance":
+			// instance Int : ord
+			nm, ty, ok := strings.Cut(rest, ":")
+			if !ok {
+				return nil, fmt.Errorf("%s:%d: instance Name : Type", path, n)
+			}
+			cf.Insts = append(cf.Insts, &InstanceCheck{Name: strings.TrimSpace(nm), Type: strings.TrimSpace(ty), Props: fileProps, Line: n})
+			top, cur, iface, impl = nil, nil, nil, nil
 		case "lemmaprops":
 			if len(cf.Lemmas) == 0 {
 				return nil, fmt.Errorf("%s:%d: lemmaprops without lemma", path, n)
